@@ -1,6 +1,7 @@
 import IndicatifModel.Model.Template
 import IndicatifModel.Proofs.TemplateFidelity
 import IndicatifModel.Proofs.Render
+import IndicatifModel.Proofs.GenBridgeTpl
 /-!
 # C10 — Template parsing is total and preserves literal text
 -/
@@ -78,6 +79,22 @@ example :
     denote items = [.lit "a{".toList, .ph "bar".toList .center (some 40) true (some "cyan".toList) (some "blue".toList),
       .lit "}".toList, .newline, .ph "msg".toList .left none false none none] := by
   refine ⟨by decide +kernel, by decide +kernel, by decide +kernel⟩
+
+/-- **the source as translated** (`tools/gen_template.py`, regenerated on every run): the arms of the two `match` expressions
+of `Template::from_str_with_tab_width` — states, character pattern, guard, next state, pushed character, block — read off
+`src/style.rs` and interpreted with Rust's first-arm-wins rule are, for every input string, the parser these theorems are
+about. So `C10_total` and `C10_faithful` speak about what the source says now; an arm that is added, removed, reordered
+or edited changes the table (or stops the translator) and this theorem is no longer checked. -/
+theorem C10_source_parser (cs : List Char) :
+    parseT Generated.parserArms Generated.transitionArms Generated.flushStates cs = parse PFix.current cs :=
+  parseT_eq cs
+
+/-- hence the parser read off the source never panics and is faithful on the documented grammar -/
+theorem C10_source_total_and_faithful :
+    (∀ cs, parseT Generated.parserArms Generated.transitionArms Generated.flushStates cs ≠ .panic) ∧
+    (∀ items : List Item, (∀ i ∈ items, i.ok = true) →
+      parseT Generated.parserArms Generated.transitionArms Generated.flushStates (render items) = .ok (denote items)) :=
+  ⟨fun cs => by rw [C10_source_parser]; exact C10_total cs, fun items hok => by rw [C10_source_parser]; exact C10_faithful items hok⟩
 
 /-! ## the rendering clause: `format_state` walks the parts in order (`Model/Render.lean`, stream C10R) -/
 open Render in
